@@ -10,7 +10,7 @@ RULES = [
     (r"auto pos = hash_\.find\(&coord\);\s*Cell \*cell = \(pos != hash_\.end\(\)\) \? pos->second : nullptr;", "CellRef cell = HASH_FIND(coord);", 0),
     (r"pos = hash_\.find\(&coord\);\s*cell = \(pos != hash_\.end\(\)\) \? pos->second : nullptr;", "cell = HASH_FIND(coord);", 0),
     (r"auto pos = (?:Grid(?:N)?<_T>::)?hash_\.find\(&cell->coord\);", "CellRef pos = HASH_FIND(cell->coord);", 0),
-    (r"pos != (?:Grid(?:N)?<_T>::)?hash_\.end\(\)", "pos != NULLREF", 0),
+    (r"pos (==|!=) (?:Grid(?:N)?<_T>::)?hash_\.end\(\)", r"pos \1 NULLREF", 0),
     (r"(?:Grid(?:N)?<_T>::)?hash_\.erase\(pos\);", "HASH_ERASE(cell->coord);", 0),
     (r"hash_\.insert\(std::make_pair\(&cell->coord, cell\)\);", "HASH_INSERT(cell->coord, cell);", 0),
     (r"list\.reserve\([^;]*\);", ";", 0),
@@ -50,6 +50,25 @@ RULES = [
 ]
 
 
+COMP_RULES = [
+    (r"using ComponentHash = [^;]*;", "", 1),
+    (r"ComponentHash ch;", "for (unsigned r_ = 0; r_ < NC; r_++) ch_[r_] = -1;", 1),
+    (r"std::vector<std::vector<Cell \*>> res;", "res_size = 0;", 1),
+    (r"for \(auto & i: hash_\)\s*\{\s*Cell \*c0 = i\.second;", "for (unsigned s_ = 0; s_ < NPOS; ++s_) if (table[s_]) { CellRef c0 = table[s_];", 1),
+    (r"auto pos = ch\.find\(&c0->coord\);\s*int comp = \(pos != ch\.end\(\)\) \? pos->second : -1;", "int comp = ch_[c0];", 1),
+    (r"pos = ch\.find\(&(\w+)->coord\);\s*comp = \(pos != ch\.end\(\)\) \? pos->second : -1;", r"comp = ch_[\1];", 2),
+    (r"res\.resize\(res\.size\(\) \+ 1\);\s*std::vector<Cell \*> &q = res\.back\(\);", "RES_NEW_ROW(); size_t q = res_size - 1;", 1),
+    (r"q\.push_back\((\w+)\);", r"RES_PUSH(q, \1);", 2),
+    (r"std::size_t", "size_t", 1), (r"q\.size\(\)", "res_rowsize[q]", 1),
+    (r"Cell \*c = q\[index\+\+\];", "CellRef c = res[q][index++];", 1),
+    (r"ch\.insert\(std::make_pair\(&c->coord, components\)\);", "ch_[c] = components;", 1),
+    (r"std::vector<Cell \*> nbh;\s*neighbors\(c, nbh\);\s*for \(const auto &n : nbh\)\s*\{",
+     "CellList nbh; nbh.size = 0; { int t_[DIM]; COPY_COORD(t_, C_coord[c]); grid_neighbors(t_, &nbh); } for (size_t ni_ = 0; ni_ < nbh.size; ++ni_) { CellRef n = nbh.v[ni_];", 1),
+    (r"q\.erase\(q\.begin\(\) \+ index\);", "RES_ERASE(q, index);", 1),
+    (r"std::sort\(res\.begin\(\), res\.end\(\), SortComponents\(\)\);", "RES_SORT_BY_SIZE();", 1),
+    (r"return res;", "return;", 1),
+]
+
 def S(name, file, sig, which=None, mins=()):
     d = dict(name=name, file=file, sig=sig, rules=RULES, loops={"allow_uncontracted": True})
     if which is not None:
@@ -73,10 +92,11 @@ SOURCES = [
     S("b_topExternal", GB, r"Cell \*topExternal\(\) const"),
     S("b_countInternal", GB, r"unsigned int countInternal\(\) const"),
     S("b_countExternal", GB, r"unsigned int countExternal\(\) const"),
+    dict(name="components", file=G, sig=r"std::vector<std::vector<Cell \*>> components\(\) const", rules=COMP_RULES + RULES, loops={"allow_uncontracted": True}),
 ]
 FUNCS = ["ompl::Grid::neighbors(Coord&,CellArray&)", "ompl::Grid::add", "ompl::Grid::remove", "ompl::GridN::numberOfBoundaryDimensions", "ompl::GridN::createCell",
          "ompl::GridN::remove", "ompl::GridB::createCell", "ompl::GridB::add", "ompl::GridB::remove", "ompl::GridB::update", "ompl::GridB::updateAll",
-         "ompl::GridB::topInternal", "ompl::GridB::topExternal", "ompl::GridB::countInternal", "ompl::GridB::countExternal"]
+         "ompl::GridB::topInternal", "ompl::GridB::topExternal", "ompl::GridB::countInternal", "ompl::GridB::countExternal", "ompl::Grid::components"]
 FLAGS = ["--bounds-check", "--pointer-check", "--signed-overflow-check", "--no-malloc-may-fail"]
 
 
@@ -102,6 +122,20 @@ for h in ("neighbors", "base_remove", "n_create_add", "n_create_remove", "n_remo
     UNITS.append(U(h, 1, 4, (), in_tiers=("thorough",)))
     UNITS.append(U(h, 3, 2, (), in_tiers=("thorough",)))
 
+COMP_CAN = [dict(name="duplicates_not_dropped", where="body:components", rx=r"else\s*\{\s*--index;\s*RES_ERASE\(q, index\);\s*\}", repl="")]
+# Grid::components: one concrete occupancy pattern per solver process, ALL patterns of the window enumerated
+for (dim, w, tiers) in ((2, 2, ("quick", "thorough")), (1, 4, ("quick", "thorough")), (2, 3, ("thorough",))):
+    for mask in range(1 << (w ** dim)):
+        u = U("components", dim, w, COMP_CAN if (dim, w, mask) == (2, 2, 15) else (), in_tiers=tiers)
+        u["name"] += "_m%03x" % mask
+        u["defines"]["PRESENT_MASK"] = mask
+        q = (dim if w == 2 else 2 * dim) * (w ** dim) + 2
+        u["unwind"] = max(q, w ** dim + 2) + 2
+        u["functions"] = ["ompl::Grid::components", "ompl::Grid::neighbors(Coord&,CellArray&)"]
+        u["bound"] = "occupancy pattern 0x%x of the %d^%d window (all %d patterns are enumerated, one per process)" % (mask, w, dim, 1 << (w ** dim))
+        u["backend"] = "minisat"
+        UNITS.append(u)
+
 ASSUMPTIONS = [
     "bounded world: grids of dimension 2 inside a 3x3 window (thorough: also 1-D width 4 and 3-D 2x2x2); probes may fall one step outside the window",
     "assumed finite-map contract for std::unordered_map keyed by coordinate value (direct table model in units/C13/grid_model.h); Eigen::VectorXi modelled as int[DIM]",
@@ -110,5 +144,5 @@ ASSUMPTIONS = [
     "GridN/GridB::neighbors(...) overloads that only copy/cast the base list are mapped to Grid::neighbors",
 ]
 TRUSTED = ["extraction rewrite table of units/C13.py", "memory model and abstract heaps in units/C13/grid_model.h, harness code in units/C13/grid_bounded.c", "CBMC 6.11 + cadical"]
-NOT_COVERED = ["Grid::components (flood fill over unordered_map / vector-of-vectors): see the native oracle only", "hash function quality, Eigen", "KPIECE Discretization's use of the grid",
+NOT_COVERED = ["ordering of the reported components by size", "hash function quality, Eigen", "KPIECE Discretization's use of the grid",
                "symmetry of the neighbour relation across arbitrary dimensions (follows from the +-1 probe rule, checked in the window)"]
